@@ -30,6 +30,10 @@ class Refuse(RefError):
 # Writer with a field map
 
 
+class Raw(bytes):
+    """Pre-encoded wire bytes placed verbatim (reference generator only)."""
+
+
 class W:
     __slots__ = ('parts', 'pos', 'fields')
 
@@ -143,7 +147,9 @@ def put_longstr(w, s, kind='longstr'):
 
 def put_value(w, v, legacy=False):
     """Table/array value: tag + payload, library's documented type mapping."""
-    if isinstance(v, bool):
+    if isinstance(v, Raw):
+        w.put(bytes(v))
+    elif isinstance(v, bool):
         w.put(b't', 'tag')
         w.put(b'\x01' if v else b'\x00')
     elif isinstance(v, int):
@@ -233,7 +239,9 @@ def enc_array(items, legacy=False):
 
 def put_typed(w, v, wire_type, legacy=False):
     """A method argument / property of a fixed wire type (not bit)."""
-    if wire_type == 'octet':
+    if isinstance(v, Raw):
+        w.put(bytes(v))
+    elif wire_type == 'octet':
         w.put(_pack('>B', _need_int(v, 'octet'), 'octet'))
     elif wire_type == 'short':
         w.put(_pack('>H', _need_int(v, 'short'), 'short'))
